@@ -30,27 +30,29 @@ theorem start_with_unfinished_parent_rejected (cfg : Cfg) (w : Store) (c : Ctr) 
     (hr : w.stOf r = assigned) (hb : r < w.st.size)
     (hpar : ∃ p ∈ w.parentsOf r, w.stOf p ≠ completed) :
     advance cfg w c cons = .error .deps := by
+  have hseek : seek w cfg c = .error .deps := by
+    unfold seek
+    split
+    · rename_i h; rw [hops] at h; cases h
+    · rename_i r' s' rest' h
+      rw [hops] at h
+      cases h
+      simp only [hst, Bool.not_false, ↓reduceDIte]
+      have : w.transition r running = .error .deps := by
+        unfold Store.transition Store.check
+        have hv : running ∈ Extracted.validNext assigned := by decide
+        obtain ⟨p, hp, hne⟩ := hpar
+        have hall : (w.parentsOf r).all (fun p => w.stOf p == completed) = false := by
+          rw [Bool.eq_false_iff]
+          intro hall
+          rw [List.all_eq_true] at hall
+          have := hall p hp
+          simp at this
+          exact hne this
+        simp [hb, hr, hv, hall]
+      rw [this]
   unfold advance
-  simp only [hf, Bool.false_eq_true, ↓reduceIte]
-  split
-  · rename_i h; rw [hops] at h; cases h
-  · rename_i r' s' rest' h
-    rw [hops] at h
-    cases h
-    simp only [hst, Bool.not_false, ↓reduceDIte]
-    have : w.transition r running = .error .deps := by
-      unfold Store.transition Store.check
-      have hv : running ∈ Extracted.validNext assigned := by decide
-      obtain ⟨p, hp, hne⟩ := hpar
-      have hall : (w.parentsOf r).all (fun p => w.stOf p == completed) = false := by
-        rw [Bool.eq_false_iff]
-        intro hall
-        rw [List.all_eq_true] at hall
-        have := hall p hp
-        simp at this
-        exact hne this
-      simp [hb, hr, hv, hall]
-    rw [this]
+  simp only [hf, Bool.false_eq_true, ↓reduceIte, hseek]
 
 /-- **C01.3.**  Iterating a DAG built by `add_node` (every parent is an earlier node, parent lists are
 duplicate-free) visits every node exactly once, parents before children. -/
